@@ -71,7 +71,11 @@ def feed(data):
     from pynetdicom.transport import AssociationSocket
 
     if _ASSOC is None:
+        from pynetdicom.transport import AddressInformation
+
         _ASSOC = Association(stubs.make_ae(), "acceptor")
+        _ASSOC.requestor.address_info = AddressInformation("127.0.0.1", 40000)
+        _ASSOC.acceptor.address_info = AddressInformation("127.0.0.1", 11112)
     assoc = _ASSOC
     dul = assoc.dul
     for qq in (dul.event_queue, dul._recv_pdu):
@@ -126,7 +130,36 @@ def feed(data):
                     out["unstable"] = "second round differs"
         except Exception as exc:
             out["unstable"] = f"re-encode/decode raised {type(exc).__name__}: {exc}"
+        # the provider's reaction: the real state machine processes the event in the state in which
+        # this PDU is expected (conversion to a primitive, hand-over to ACSE / DIMSE, replies)
+        if len(out["events"]) == 1 and out["events"][0] in NATURAL_STATE:
+            ev = out["events"][0]
+            dul._recv_pdu.put(p)
+            assoc.dimse.message = None
+            dul.state_machine.current_state = NATURAL_STATE[ev]
+            signal.setitimer(signal.ITIMER_REAL, 5.0)
+            try:
+                dul.state_machine.do_action(ev)
+            except Hang:
+                out["react_raised"] = "HANG (> 5 s)"
+            except BaseException as exc:  # noqa
+                out["react_raised"] = f"{type(exc).__name__}: {exc}"
+            finally:
+                signal.setitimer(signal.ITIMER_REAL, 0)
+            out["react_state"] = dul.state_machine.current_state
+            for qq in (dul.event_queue, dul._recv_pdu, dul.to_user_queue, assoc.dimse.msg_queue):
+                while True:
+                    try:
+                        qq.get(False)
+                    except _q.Empty:
+                        break
+            dul._kill_thread = False
+            dul.artim_timer.stop()
+            dul.state_machine.current_state = "Sta1"
     return out
+
+
+NATURAL_STATE = {"Evt6": "Sta2", "Evt3": "Sta5", "Evt4": "Sta5", "Evt10": "Sta6", "Evt12": "Sta6", "Evt13": "Sta7", "Evt16": "Sta6"}
 
 
 def accept_in_sta2(data):
@@ -171,6 +204,8 @@ def judge(data, must_accept=False):
             bad.append(("wrong-event", f"type byte 0x{data[0]:02X} produced {ev[0]}"))
         if r["unstable"]:
             bad.append(("unstable-pdu", f"decoded {r['pdu']} is not stable: {r['unstable']}"))
+        if r.get("react_raised"):
+            bad.append((f"provider-raised-{r['react_raised'].split(':')[0]}", f"the state machine processing {ev[0]} for the decoded {r['pdu']} raised {r['react_raised']} (it would leave the provider thread)"))
     else:
         if ev[0] not in ("Evt17", "Evt19"):
             bad.append(("event-without-pdu", f"{ev[0]} queued but no PDU"))
